@@ -20,6 +20,9 @@ def program_info(training_file, encoding='utf-8', coverage=0.6, ngram=4, alphabe
             'coverage': coverage, 'max_len': 21, 'multiword': multiword}
 
 
+_CALLER_INFO = {}      # the one dict a library caller that trains several lists in a row keeps and updates (see train())
+
+
 class TrainResult:
     def __init__(self):
         self.ok = None              # what run_trainer returned (True / False / None)
@@ -42,7 +45,15 @@ def train(pwfile, outdir, keep_dir=False, **kw):
     import lib_trainer.pcfg_password_parser as pp
     from lib_trainer.trainer_file_output import create_rule_folders
     res = TrainResult()
-    pi = program_info(pwfile, **kw)
+    # run_trainer() writes into its caller's program_info (the 'alphabet' key on the unchanged tree), so a caller that trains several
+    # lists in one process naturally hands the SAME dict in again with its own keys updated. Every training of a shard does that:
+    # whatever an earlier call left in the dict is still there, and may not influence this training (C06-r16: a password count kept
+    # with dict.setdefault). The first training of each process sees a fresh dict.
+    pi = _CALLER_INFO
+    mine = program_info(pwfile, **kw)
+    if 'alphabet' in pi:
+        del mine['alphabet']
+    pi.update(mine)
     if not keep_dir:
         shutil.rmtree(outdir, ignore_errors=True)
     saved = {'save_pcfg_data': rt.save_pcfg_data, 'save_omen': rt.save_omen_rules_to_disk, 'bsc': pp.base_structure_creation,
@@ -100,7 +111,7 @@ def train(pwfile, outdir, keep_dir=False, **kw):
         pp.base_structure_creation = saved['bsc']
         pp.PCFGPasswordParser.parse = saved['parse']
     res.stdout = buf.getvalue()
-    res.program_info = pi
+    res.program_info = dict(pi)
     return res
 
 
